@@ -182,6 +182,9 @@ func runC17(c *Ctx) {
 			k := testkeys.RSAWithExponent(e)
 			pairs = append(pairs, pairing{a, k, &k.PublicKey, fmt.Sprintf("rsa-2048-e=%d", e)})
 		}
+		// an RSA key behind an opaque crypto.Signer (HSM / KMS wrapper): still PSS with the hash-length salt
+		wk := testkeys.RSA(2048)
+		pairs = append(pairs, pairing{a, refcrypto.WrapSigner{K: wk}, &wk.PublicKey, "wrapped-rsa-2048"})
 	}
 	for _, a := range []cose.Algorithm{cose.AlgorithmES256, cose.AlgorithmES384, cose.AlgorithmES512} {
 		// every algorithm with every supported curve (the library does not tie the hash to the curve)
